@@ -270,7 +270,8 @@ def main():
         ev['coverage']['checked_tree'] = {'repo_head': head.strip() if rc1 == 0 else None,
                                           'working_tree_modified': bool(dirty.strip()) if rc2 == 0 else None}
         ev['violations'] = len(violations)
-        json.dump(ev, open(os.path.join(EVID, prop + '.json'), 'w'), indent=1)
+        if not os.environ.get('VERIF_NO_EVIDENCE'):      # measurement runs (harness/coverage.sh) leave the evidence alone
+            json.dump(ev, open(os.path.join(EVID, prop + '.json'), 'w'), indent=1)
         for l in known_lines:
             print(l)
         for path, suffix in violations:
